@@ -554,6 +554,10 @@ func (e *Engine) constGlobal(g *ssa.Global) (Val, bool) {
 	if len(e.layout(et)) != 1 {
 		return Val{}, false
 	}
+	// only variables of the module's own packages are scanned for stores; library variables stay symbolic
+	if g.Pkg == nil || !strings.HasPrefix(g.Pkg.Pkg.Path(), modPath) {
+		return Val{}, false
+	}
 	var initVal *ssa.Const
 	stores := 0
 	for _, sp := range e.spkg {
